@@ -58,7 +58,9 @@ LEAVES = ["x", "y", "opt_one", "lim_lo_hi", "verbose", "dd__k", "Mixed_Case", "k
 # the mapping part of a call).
 ACCEPT_DEV = ["cpu", "CPU", "cpu:0", None, "torch:cpu"]
 REJECT_DEV = ["gpu", "GPU", "cuda", "cuda:0", "cuda:7", "mps", "tpu", "", "cuda:abc", 0, 1, -1, 3.5,
-              "torch:cuda", "torch:cuda:3", "xpu:0", "meta"]
+              "torch:cuda", "torch:cuda:3", "xpu:0", "meta",
+              # unavailable / unsupported devices as torch.device OBJECTS
+              "torch:mps", "torch:meta", "torch:xpu", "torch:mps:0", "torch:cuda:0"]
 
 _cfgmod = None
 _pristine = None
@@ -110,9 +112,10 @@ def _gen_items(r, i, n_items=None):
             # mostly unique ints; sometimes a falsy value (0, False, '', None, 0.0)
             val = 1000 + i * 20 + j if not r.chance(0.08) else ["F0", "FFalse", "Fempty", "FNone",
                                                                  "F0.0"][r.randrange(5)]
-            if r.fork("seqval").chance(0.07):
+            sq = r.fork("seqval")
+            if sq.chance(0.07):
                 # sequences are values: replaced as a whole, never merged
-                val = "L" + str(1000 + i * 20 + j) + r.fork("seqval").pick(["list", "tuple", "nested"])
+                val = "L" + str(1000 + i * 20 + j) + sq.pick(["list", "tuple", "nested"])
             items.append({"path": _gen_path(r), "val": val})
     # one call never mentions the same (normalised) path twice, nor a path and its ancestor
     out, seen = [], []
